@@ -42,6 +42,10 @@ pub fn seam_selftest() -> Result<(), String> {
             std::fs::create_dir_all(format!("{r2}/d/e"))?;
             std::fs::write(format!("{r2}/d/e/f"), "hello")?;
             assert!(std::path::Path::new(&format!("{r2}/d/e/f")).exists());
+            // the file-system clock stands still for processes with an even entropy seed
+            let mtime = std::fs::metadata(format!("{r2}/d/e/f"))?.modified()?;
+            let frozen = mtime == std::time::UNIX_EPOCH + std::time::Duration::from_secs(1_700_000_000);
+            assert_eq!(frozen, seed % 2 == 0, "simulated file-system clock");
             let hs: std::collections::HashSet<u32> = (0..16).collect();
             let order: Vec<u32> = hs.into_iter().collect();
             println!("captured");
